@@ -29,7 +29,7 @@ Init == /\ op \in Ops /\ pc = "call" /\ res = <<>>
         /\ s1 \in Shapes
         /\ s2 \in IF op \in {"construct", "addsub", "sep"} THEN Shapes ELSE {<<>>}
         /\ arg \in CASE op = "index" -> Exprs(s1)
-                     [] op = "rotate" -> {<<c, d, e>> : c \in {<<0, 0>>, <<2, -1>>}, d \in Dirs, e \in {<<3, 4, 5>>, <<0, 1, 1>>}}
+                     [] op = "rotate" -> {<<c, d, e>> : c \in {<<0, 0>>, <<2, -1>>}, d \in Dirs, e \in {<<3, 4, 5>>, <<0, 1, 1>>, <<-1, 0, 1>>, <<0, -1, 1>>}}           \* incl. half and three-quarter turns
                      [] OTHER -> {0}
 Apply ==
   CASE op = "construct" -> Construct(X(s1), Y(s2))
